@@ -27,8 +27,16 @@ def source_desc(draw, nfilt, min_data=0, name=None):
         flags[j] = 1
     flux = [draw(gen.logfloat(1e-3, 1e3)) for _ in flags]
     err = [draw(gen.logfloat(1e-3, 0.5)) if f in (1, 4) else draw(st.sampled_from([0., 0.5, 1.])) for f in flags]
-    return {'name': name or draw(src_names), 'x': draw(st.sampled_from([0., 9.8925, 271.25])),
-            'y': draw(st.sampled_from([0., -0.342])), 'flags': flags, 'flux': flux, 'err': err}
+    src = {'name': name or draw(src_names), 'x': draw(st.sampled_from([0., 9.8925, 271.25])),
+           'y': draw(st.sampled_from([0., -0.342])), 'flags': flags, 'flux': flux, 'err': err,
+           # how the catalogue typed the flags (default, narrow, unsigned or floating-point numbers)
+           'flag_dtype': draw(gen.FLAG_DTYPES)}
+    if 4 not in flags and draw(st.integers(0, 4)) == 0:
+        # photometry in whole numbers, reaching the Source as integer arrays (records of one file then differ in layout)
+        src['flux'] = [float(max(1, round(v))) for v in flux]
+        src['err'] = [float(max(1, round(e))) if f in (1, 0, 9) else e for f, e in zip(flags, err)]
+        src['int_arrays'] = True
+    return src
 
 
 @st.composite
